@@ -85,3 +85,50 @@ Example c10_nonvacuous :
   | _ => False
   end.
 Proof. vm_compute. reflexivity. Qed.
+
+(* ---- the history clause, over the browser jar (Model/Jar.v, Model/JarSession.v) ----
+   Start from any jar in which no cookie of the session family (the name itself, name_<digits>, a
+   truncated numbered name) sits under another domain or path; run ANY sequence of saves (values of
+   any size below 2^63 bytes once signed) and clears, each applied to the jar as a browser applies
+   Set-Cookie headers, each computed from what the jar presents at that moment.  Then: the cookies
+   outside the family are untouched; if the last operation was a save, the next request loads
+   exactly that value and timestamp (no stale part of an earlier, larger or smaller, session
+   survives); if it was a clear, no cookie of the family is left and nothing loads. *)
+From V.Model Require Import JarSession.
+From V.Proofs Require Import JarProofs.
+
+Theorem c10_history : forall (mac : str -> str), (forall m, is_bytes (mac m)) ->
+  forall cfg host,
+  zlen (c_name cfg) < split_name_limit -> 0 <= c_expire_ns cfg ->
+  forall pre o j0 j',
+  let name := c_name cfg in
+  let D := select_domain host (c_domains cfg) in
+  let P := c_path cfg in
+  dom_ok name D P j0 -> Forall (op_ok mac cfg) (pre ++ [o]) ->
+  jar_run mac cfg host j0 (pre ++ [o]) = Some j' ->
+  dom_ok name D P j' /\ filter (otherb name) j' = filter (otherb name) j0 /\
+  match o with
+  | OpSave v t => forall now, in_window t now (c_expire_ns cfg) = true ->
+                              store_load mac cfg (jar_cookies j') now = Some (v, t)
+  | OpClear => filter (sessb name) j' = [] /\ forall now, store_load mac cfg (jar_cookies j') now = None
+  end.
+Proof. exact jar_history. Qed.
+Print Assumptions c10_history.
+
+(* the timestamp premise of the save theorems holds for every non-negative int64 *)
+Theorem c10_ts_ok_range : forall t, 0 <= t <= int64_max -> ts_ok t = true.
+Proof. exact ts_ok_range. Qed.
+Print Assumptions c10_ts_ok_range.
+
+(* non-vacuity: small save, 3100-byte save (split in two), clear, 6500-byte save (three parts),
+   small save; a foreign cookie survives, the last save loads *)
+Example c10_history_nonvacuous :
+  let ops := [OpSave (repeat 66%N 40) 1790000000; OpSave ex_value 1790000001; OpClear;
+              OpSave (repeat 67%N (Z.to_nat 6500)) 1790000002; OpSave (repeat 68%N 50) 1790000003] in
+  let j0 := [{| j_name := s "other"; j_domain := []; j_path := s "/"; j_value := s "x" |}] in
+  match jar_run ex_mac ex_cfg (s "app.example.com") j0 ops with
+  | Some j' => length j' = 2%nat /\
+               store_load ex_mac ex_cfg (jar_cookies j') 1790000100000000000 = Some (repeat 68%N 50, 1790000003)
+  | None => False
+  end.
+Proof. vm_compute. split; reflexivity. Qed.
